@@ -39,6 +39,16 @@ ToText(n) == IF n = Empty THEN <<At>> ELSE IF n = Root THEN <<Dot>> ELSE JoinFro
 (* omit_final_dot: the root label of an absolute name is not written (the root stays ".") *)
 ToTextOmit(n) == IF IsAbs(n) /\ n # Root THEN JoinFrom(SubSeq(n, 1, Len(n) - 1), 1) ELSE ToText(n)
 
+(* What any writer must guarantee for the text to be ONE token of a master file (RFC 1035 5.1):
+   only printable ASCII, and the characters with a meaning to the zone-file reader
+   ( " $ ( ) ; and, inside a label, @ ) only directly after a backslash.  Whitespace, newlines and
+   other control octets must be written as \DDD. *)
+MasterFileSafe(text) ==
+    \A k \in 1..Len(text) :
+        /\ text[k] > 32 /\ text[k] < 127
+        /\ (text[k] \in {34, 36, 40, 41, 59} => k > 1 /\ text[k - 1] = BackSl)
+        /\ (text[k] = At /\ Len(text) > 1 => k > 1 /\ text[k - 1] = BackSl)
+
 -----------------------------------------------------------------------------
 (* parser automaton *)
 PInit == [i |-> 1, label |-> <<>>, labels |-> <<>>, esc |-> FALSE, ndig |-> 0, tot |-> 0,
